@@ -103,6 +103,11 @@ def windows(name, ws, pick):
         dn = FAMILY['tstr'][name]
         yield 'data+string', [E.ev(dn, 0, (77, 88, 0, 0)), dev(name, 0, s)]
         yield 'data+string-other-thread', [E.ev(dn, 0, (77, 88, 0, 0), tid=2), dev(name, 0, s)]
+        # the DATA half of the OTHER pair kind precedes this string (its own DATA record was lost), and both DATA kinds in either order
+        other = [d for d in FAMILY['tstr'].values() if d != dn][0]
+        yield 'other-pairs-data+string', [E.ev(other, 0, (77, 88, 1, 3)), dev(name, 0, s)]
+        yield 'both-data+string', [E.ev(dn, 0, (77, 88, 1, 3)), E.ev(other, 0, (78, 89, 1, 3)), dev(name, 0, s)]
+        yield 'both-data-reversed+string', [E.ev(other, 0, (78, 89, 1, 3)), E.ev(dn, 0, (77, 88, 1, 3)), dev(name, 0, s)]
     if name == 'MACH_vmfault':
         for k1, k2 in itertools.product(REAL_FAULT_KINDS + [None], repeat=2):
             nested = []
@@ -127,6 +132,11 @@ def windows(name, ws, pick):
         # two images (and the shared cache) announced at the SAME load address (a re-mapped slot; a zeroed address word)
         yield 'launch-same-address', [S, E.ev('DYLD_uuid_map_a', 0, (1, 2, 0x2000, 3)), E.ev('DYLD_uuid_map_a', 0, (8, 9, 0x2000, 3)),
                                       E.ev('DYLD_uuid_shared_cache_a', 0, (4, 5, 0x2000, 6)), E.ev('DYLD_uuid_map_a', 0, (1, 2, 0x2000, 3)), En]
+    if name == 'DBG_DYLD_TIMING_LAUNCH_EXECUTABLE':
+        # images mapped AND unmapped inside the window: once, twice, at another address, an image never mapped
+        m1, m2 = E.ev('DYLD_uuid_map_a', 0, (1, 2, 0x2000, 3)), E.ev('DYLD_uuid_map_a', 0, (8, 9, 0x3000, 3))
+        u1, u1x = E.ev('DYLD_uuid_unmap_a', 0, (1, 2, 0x2000, 3)), E.ev('DYLD_uuid_unmap_a', 0, (1, 2, 0x5000, 3))
+        yield 'launch-with-unmaps', [S, m1, u1, u1, m1, u1, m2, u1x, E.ev('DYLD_uuid_unmap_a', 0, (6, 6, 0x7000, 3)), En]
     if name == 'TRACE_DATA_THREAD_TERMINATE':
         yield 'terminate-named', [E.ev('TRACE_STRING_THREADNAME', 0, tid=s[0] & 0xffff or 1, data=text_data('thr')), dev(name, 0, s)]
 
